@@ -21,7 +21,7 @@ pub fn pfx(what: &str, (c, d): Fail) -> Fail {
     }
 }
 /// sets up to this size are compared element by element in iteration order
-pub const ROW_IDS_LIMIT: u128 = 20_000;
+pub const ROW_IDS_LIMIT: u128 = if cfg!(miri) { 300 } else { 20_000 };
 
 pub fn addr(f: u32, o: u32) -> u64 {
     ((f as u64) << 32) | o as u64
@@ -354,7 +354,7 @@ impl Pools {
             1 => rng.below(64) as u32,
             2 => (*rng.pick(OFF_POOL)).wrapping_add(rng.below(5) as u32).wrapping_sub(2),
             _ => {
-                let lim = if rng.chance(1, 8) { 200_000 } else { 2_000 };
+                let lim = if cfg!(miri) { 60 } else if rng.chance(1, 8) { 200_000 } else { 2_000 };
                 rng.below(lim) as u32
             }
         }
@@ -371,7 +371,7 @@ impl Pools {
             2 | 3 => {
                 // crosses the end of a's fragment
                 let f = (a >> 32) as u32;
-                let big = rng.chance(1, 10);
+                let big = !cfg!(miri) && rng.chance(1, 10);
                 let k = rng.below(if big { 70_000 } else { 300 }) as u32;
                 let j = rng.below(if big { 70_000 } else { 300 }) as u32;
                 (addr(f, u32::MAX - k), addr(f.saturating_add(1), j))
@@ -379,7 +379,7 @@ impl Pools {
             4 => (a, (a | 0xFFFF_FFFF).min(a.saturating_add(rng.below(300)))), // up to the end of the fragment
             5 => (a & !0xFFFF_FFFF, (a & !0xFFFF_FFFF) + rng.below(300)),       // from the start
             _ => {
-                let lim = if rng.chance(1, 10) { 5_000 } else { 200 };
+                let lim = if cfg!(miri) { 40 } else if rng.chance(1, 10) { 5_000 } else { 200 };
                 (a, a.saturating_add(rng.below(lim)))
             }
         };
@@ -896,4 +896,182 @@ fn or_is_heavy(a: &MaskPair, b: &MaskPair) -> bool {
         _ => false,
     };
     chk(&a.real.block_list, &b.real.allow_list) || chk(&b.real.block_list, &a.real.allow_list)
+}
+
+/// The small universe: 4 row addresses in 2 fragments (+ outside probes).
+#[derive(Clone, Debug)]
+pub struct Small {
+    pub fa: u32,
+    pub fb: u32,
+    pub u: [u64; 4],
+    pub outside: [u64; 3],
+}
+
+impl Small {
+    pub fn from_seed(seed: u64) -> Self {
+        let mut rng = Rng::for_case(seed, 0xC21);
+        let fa = *rng.pick(&[0u32, 0, 1, 5, 65_535, 0x7FFF_FFFF]);
+        let fb = if rng.bool() { fa + 1 } else { fa + 2 + rng.below(1000) as u32 };
+        let b1 = 1 + rng.below(100_000) as u32;
+        Self {
+            fa,
+            fb,
+            u: [addr(fa, 0), addr(fa, u32::MAX), addr(fb, 0), addr(fb, b1)],
+            outside: [addr(fa, 1), addr(fb, u32::MAX), addr(fb + 1, 0)],
+        }
+    }
+    /// subsets of the universe, optionally using full-fragment markers where a fragment's two
+    /// universe rows are both present (the marker then also covers the rest of the fragment)
+    pub fn pair(&self, bits: u8, fullmark: bool) -> Pair {
+        let mut p = Pair::new();
+        p.touched.insert(self.fa);
+        p.touched.insert(self.fb);
+        for (f, lo) in [(self.fa, 0u8), (self.fb, 2u8)] {
+            let part = (bits >> lo) & 3;
+            if fullmark && part == 3 {
+                p.real.insert_fragment(f);
+                p.model = p.model.union(&IvSet::fragment(f));
+                p.log.push(format!("insert_fragment({f})"));
+            } else {
+                for k in 0..2 {
+                    if part & (1 << k) != 0 {
+                        let a = self.u[(lo + k) as usize];
+                        p.real.insert(a);
+                        p.model.insert(a);
+                        p.log.push(format!("insert({a:#x})"));
+                    }
+                }
+            }
+        }
+        p
+    }
+    pub fn variants(&self) -> Vec<(u8, bool)> {
+        let mut v: Vec<(u8, bool)> = (0..16u8).map(|b| (b, false)).collect();
+        for b in 0..16u8 {
+            if b & 3 == 3 || (b >> 2) & 3 == 3 {
+                v.push((b, true));
+            }
+        }
+        v
+    }
+    pub fn bits_of(&self, f: impl Fn(u64) -> bool) -> u64 {
+        let mut r = 0;
+        for (i, a) in self.u.iter().enumerate() {
+            if f(*a) {
+                r |= 1 << i;
+            }
+        }
+        r
+    }
+}
+
+
+/// `DeletionVector` op sequence against a `BTreeSet<u32>` (shared with the Miri leg).
+/// `summary` = (model size, min, max, is bitmap) for the caller's distinctness signature.
+pub fn deletion_vector_ops(rng: &mut Rng, log: &mut Vec<String>, summary: &mut (usize, Option<u32>, Option<u32>, bool)) -> Result<(), Fail> {
+    use lance_core::utils::deletion::{DeletionVector, OffsetMapper};
+    use std::sync::Arc;
+    let mut model: BTreeSet<u32> = BTreeSet::new();
+    let mut dv = DeletionVector::default();
+    let gen_val = |rng: &mut Rng| -> u32 {
+        match rng.below(5) {
+            0 => rng.below(64) as u32,
+            1 => 65_530 + rng.below(12) as u32,
+            2 => u32::MAX - rng.below(5) as u32,
+            _ => rng.below(20_000) as u32,
+        }
+    };
+    let r = (|| -> Result<(), Fail> {
+        for _ in 0..rng.urange(1, 5) {
+            // extend with: exact-size iterators (Vec), unknown-size iterators (filter), big batches
+            let n = match rng.below(5) {
+                0 => 0,
+                1 => if cfg!(miri) { rng.urange(1, 40) } else { rng.urange(4_990, 5_010) },
+                _ => rng.urange(1, 300),
+            };
+            let vals: Vec<u32> = (0..n).map(|_| gen_val(rng)).collect();
+            log.push(format!("extend({} values, {})", vals.len(), if rng.bool() { "sized" } else { "unsized" }));
+            if log.last().unwrap().contains("unsized") {
+                dv.extend(vals.iter().copied().filter(|_| true));
+            } else {
+                dv.extend(vals.iter().copied());
+            }
+            model.extend(vals.iter().copied());
+            if dv.len() != model.len() || dv.is_empty() != model.is_empty() {
+                return Err(("deletion-vector:len".into(), format!("len {} vs {}", dv.len(), model.len())));
+            }
+            let mut got: Vec<u32> = dv.iter().collect();
+            got.sort_unstable();
+            let want: Vec<u32> = model.iter().copied().collect();
+            if got != want {
+                return Err(("deletion-vector:iter-content".into(), format!("{} vs {}", got.len(), want.len())));
+            }
+            if dv.to_sorted_iter().collect::<Vec<_>>() != want || dv.clone().into_sorted_iter().collect::<Vec<_>>() != want || dv.clone().into_iter().collect::<Vec<_>>() != want {
+                return Err(("deletion-vector:sorted-iteration".into(), String::new()));
+            }
+            for _ in 0..40 {
+                let v = if want.is_empty() || rng.bool() { gen_val(rng) } else { *rng.pick(&want) };
+                if dv.contains(v) != model.contains(&v) {
+                    return Err(("deletion-vector:contains".into(), format!("contains({v}) = {}", dv.contains(v))));
+                }
+                let a = v.saturating_sub(rng.below(4) as u32);
+                let b = a.saturating_add(rng.below(6) as u32);
+                let all = (a..b).all(|x| model.contains(&x));
+                if dv.contains_range(a..b) != all {
+                    return Err(("deletion-vector:contains_range".into(), format!("contains_range({a}..{b}) = {}, model {all}", dv.contains_range(a..b))));
+                }
+            }
+            // the same contents in the other representation compare equal
+            let other = if matches!(dv, DeletionVector::Bitmap(_)) {
+                DeletionVector::Set(model.iter().copied().collect())
+            } else {
+                DeletionVector::Bitmap(model.iter().copied().collect())
+            };
+            if !model.is_empty() && other != dv {
+                return Err(("deletion-vector:eq-across-representations".into(), String::new()));
+            }
+            let rb = roaring::RoaringBitmap::from(&dv);
+            if rb.iter().collect::<Vec<_>>() != want {
+                return Err(("deletion-vector:to-roaring".into(), String::new()));
+            }
+            // predicate over row addresses: true = keep
+            let addrs: Vec<u64> = (0..30).map(|_| ((rng.below(3)) << 32) | gen_val(rng) as u64).collect();
+            match dv.build_predicate(addrs.iter()) {
+                Some(p) => {
+                    for (k, a) in addrs.iter().enumerate() {
+                        if p.value(k) == model.contains(&(*a as u32)) {
+                            return Err(("deletion-vector:build_predicate".into(), format!("address {a:#x}")));
+                        }
+                    }
+                }
+                None => {
+                    if !matches!(dv, DeletionVector::NoDeletions) {
+                        return Err(("deletion-vector:build_predicate-none".into(), String::new()));
+                    }
+                }
+            }
+        }
+        // offset mapper: the k-th surviving row
+        if model.iter().all(|v| *v < 1_000_000) && !model.is_empty() {
+            let mut mapper = OffsetMapper::new(Arc::new(dv.clone()));
+            let mut survivors = (0u32..).filter(|x| !model.contains(x));
+            let mut k = 0u32;
+            for _ in 0..50 {
+                let step = rng.below(40) as u32;
+                let mut want = survivors.next().unwrap();
+                for _ in 0..step {
+                    want = survivors.next().unwrap();
+                }
+                k += step;
+                let got = mapper.map_offset(k);
+                if got != want {
+                    return Err(("deletion-vector:offset-mapper".into(), format!("map_offset({k}) = {got}, model {want}")));
+                }
+                k += 1;
+            }
+        }
+        Ok(())
+    })();
+    *summary = (model.len(), model.iter().next().copied(), model.iter().next_back().copied(), matches!(dv, DeletionVector::Bitmap(_)));
+    r
 }
